@@ -63,6 +63,7 @@ def gen_radiation(repo, out):
 
 
 TARGETS = {"species": gen_species, "radiation": gen_radiation}
+FILES = {"species": "GenSpecies.v", "radiation": "GenRadiation.v", "mixture": "GenMixture.v", "transport": "GenTransport.v"}
 
 if __name__ == "__main__":
     repo, out = sys.argv[1], sys.argv[2]
@@ -76,4 +77,8 @@ if __name__ == "__main__":
         except Unsupported as e:
             print(f"TRANSLATOR-REFUSAL {nm}: {e}")
             rc = 2
+            # fail closed: never leave a stale model of an older source behind
+            msg = str(e).replace("*)", "* )")
+            write_if_changed(os.path.join(out, FILES[nm]),
+                             f"(* TRANSLATOR REFUSAL: {msg} *)\nDefinition translator_refused : False := I.\n")
     sys.exit(rc)
